@@ -20,7 +20,8 @@ RULE = ("every base function / class member whose docstring says 'SymPy: support
         "0 or 1 are exactly 0 / 1, same call forms as numerically. Non-trivial: >= 2 distinct symbols, or mixed "
         "symbolic/numeric, or a special angle.")
 ASSUMPTIONS = ["SymPy evalf at 30 digits is the evaluator of symbolic output", "the structural-constant clause is applied to constructors and accessors, not to composed operator expressions (where e.g. sin^2+cos^2 is a legitimate unsimplified 1)", "only entries marked 'SymPy: supported' are in scope",
-               "structural constants are identified from the numeric result at two generic points"]
+               "structural constants are identified from the numeric result at two generic points",
+               "numbers beside symbols are Python numbers, np.float64 or NumPy integers; single-precision NumPy scalars beside symbols are not generated (inside object arrays NumPy's own scalar arithmetic keeps them in single precision - observed 1e-8 differences, NumPy semantics rather than a library code path); a NumPy scalar as LEFT operand of a pose is dispatched by NumPy and is not generated"]
 
 PI = math.pi
 
@@ -44,6 +45,9 @@ def entries():
     add("transl/vector", 3, lambda a: b.transl([a[0], a[1], a[2]]))
     add("eul2r/vector", 3, lambda a: b.eul2r([a[0], a[1], a[2]]))
     add("eul2r/scalars", 3, lambda a: b.eul2r(a[0], a[1], a[2]))
+    add("eul2r/scalars/deg", 3, lambda a: b.eul2r(a[0], a[1], a[2], unit="deg"))
+    add("eul2tr/scalars/deg", 3, lambda a: b.eul2tr(a[0], a[1], a[2], unit="deg"))
+    add("eul2r/vector/deg", 3, lambda a: b.eul2r([a[0], a[1], a[2]], unit="deg"))
     add("eul2tr/vector", 3, lambda a: b.eul2tr([a[0], a[1], a[2]]))
     add("eul2tr/scalars", 3, lambda a: b.eul2tr(a[0], a[1], a[2]))
     add("delta2tr", 6, lambda a: b.delta2tr(list(a)))
@@ -199,6 +203,7 @@ def s_sym():
     pt = st.one_of(gens.fl(-3, 3), st.sampled_from([0.0, PI / 2, -PI / 2, PI, 1.0, -1.0]), gens.signed_logmag(-3, 3))
     return st.fixed_dictionaries({"kind": st.just("sym"), "entry": st.sampled_from(names), "point": st.lists(pt, min_size=6, max_size=6),
                                   "mask": st.lists(st.booleans(), min_size=6, max_size=6),
+                                  "numtype": st.sampled_from(["float", "float", "np.float64", "np.int64", "np.int32", "int"]),
                                   "alt": st.lists(gens.fl(0.3, 1.3), min_size=6, max_size=6)})
 
 
@@ -208,6 +213,9 @@ def gen_all(tier):
         for pt in pts:
             for mask in ([True] * 6, [True, False, True, False, True, False], [False, True, True, True, False, True]):
                 yield {"kind": "sym", "entry": name, "point": pt, "mask": mask, "alt": [0.37, 0.91, 1.23, 0.58, 0.77, 1.09]}
+        for nt in ("np.float64", "np.int64", "np.int32", "int"):
+            for mask in ([True, False, True, False, True, False], [False, True, True, True, False, True], [False, True, False, False, True, False]):
+                yield {"kind": "sym", "entry": name, "point": [0.3, -0.7, 1.1, 2.5, -1.3, 0.9], "mask": mask, "alt": [0.37, 0.91, 1.23, 0.58, 0.77, 1.09], "numtype": nt}
 
 
 SYMHIST = {
@@ -269,7 +277,18 @@ def check_case(case):
     if not any(mask):
         mask = [True] + mask[1:]
     syms = sympy.symbols("x0:%d" % n, real=True)
-    args = [syms[i] if mask[i] else pt[i] for i in range(n)]
+    # the numbers standing next to the symbols may be Python numbers or NumPy scalars (an element of an array is one)
+    nt = case.get("numtype", "float")
+    if name.startswith("op/s") and nt.startswith("np."):
+        nt = "int" if "int" in nt else "float"     # a NumPy scalar as LEFT operand is dispatched by NumPy, not by the library
+    if nt != "float":
+        conv = {"np.float64": np.float64, "np.int64": np.int64, "np.int32": np.int32, "int": int}[nt]
+        pt = [pt[i] if mask[i] else float(conv(round(pt[i]) if "int" in nt else pt[i])) for i in range(n)]
+        typed = [None if mask[i] else conv(round(pt[i]) if "int" in nt else pt[i]) for i in range(n)]
+        c.feat(numtype=nt)
+    else:
+        typed = pt
+    args = [syms[i] if mask[i] else typed[i] for i in range(n)]
     subs = {syms[i]: sympy.Float(pt[i], 30) for i in range(n) if mask[i]}
     try:
         want = f(list(pt))
